@@ -185,8 +185,8 @@ theorem C05_parse_spec_partial : ∀ first ∈ alphaS, (scope alphaS 4 first).al
 theorem C05_parse_spec_partial_flex : ∀ first ∈ alphaF, (scope alphaF 3 first).all (agreeOn scopeF) = true := by
   decide +kernel
 
-/-- non-vacuity: thousands of the lists of the scopes are accepted by both sides -/
-example : ((scope alphaS 3 one).filter (fun l => (parseInit scopeS l).toOption.isSome && (InitSpec.init scopeS l).toOption.isSome)).length = 118118 := by
+/-- non-vacuity: of the 512 lists `{ 1 t₂ t₃ t₄` of scope 1, 73 are accepted by both sides -/
+example : ((scope alphaS 3 one).filter (fun l => (parseInit scopeS l).toOption.isSome && (InitSpec.init scopeS l).toOption.isSome)).length = 73 := by
   decide +kernel
 
 /-- **C05 (count), full statement.**  For an array of unknown bound the length `count_array_init_elements` gives the object is the
